@@ -299,9 +299,9 @@ def run(ctx):
         "check_vs_build_interface": {"packages_checked": n_iface, "same_bytes": n_iface_same},
         "tie_link_environment": {"pairs(project x link order, <= 2 per project)": n_env, "model_agrees_with_both_ways_on_every_lookup": n_env_ok,
                                  "of_which_same_iteration_order_as_the_separate_link": n_env_same_order,
-                                 "exported_keys_per_project": dict(env_keys)},
-        "exports_roundtrip_through_interface_json": {"packages": n_rt, "identity": n_rt_same, "with_at_least_one_export": n_rt_nonempty,
-                                                     "exported_entries_per_package(capped at 10)": {str(k): v for k, v in sorted(rt_entries.items())}},
+                                 "keys_exported_by_the_packages_themselves(builtins not counted)_per_project": dict(env_keys)},
+        "exports_roundtrip_through_interface_json": {"packages": n_rt, "identity": n_rt_same, "with_at_least_one_export_of_its_own": n_rt_nonempty,
+                                                     "own_exported_entries_per_package(builtins not counted; capped at 10)": {str(k): v for k, v in sorted(rt_entries.items())}},
         "tie_core_equivalence": {"pairs": n_eq, "equal_up_to_order_and_renaming": n_eq_ok, "inside_verified_fragment(separate_eq_whole_validated applies)": n_in_fragment,
                                  "of_which_with_closure_expressions": n_verified_with_closures,
                                  "outside(only the unverified structural comparison accepts), by reason": dict(outside),
